@@ -402,6 +402,10 @@ class FnTr:
             elif k == "const":
                 declared.add(s[1])
         visit_b((stmts, tail))
+        if getattr(self.u, "sort_acc", False):
+            # canonical order of the tuple of assigned variables (self first, then by name): reordering independent statements
+            # of a loop body / branch does not change the shape of the translation
+            out.sort(key=lambda n: (n != "self", n))
         return out
 
     def literal_indexed_only(self, name, stmts, tail):
@@ -1688,6 +1692,36 @@ class FnTr:
                        (self.subst_deref(body[0], m), None)))
 
     def for_stmt(self, s):
+        try:
+            return self.for_stmt_(s)
+        except Unsupported as e:
+            # `for i in 0..8 { a[i] = w(b[i]); }` with a flattened `b`: a loop over a small literal range is unrolled
+            if "variable index into a flattened array" not in str(e):
+                raise
+            _, var, it, body = s
+            r = it
+            while r[0] in ("paren",):
+                r = r[1]
+            if var[0] != "name" or r[0] != "range" or r[1] is None or r[2] is None or body[1] is not None:
+                raise
+            lo, hi = const_eval(r[1], self.u.const_vals), const_eval(r[2], self.u.const_vals)
+            if lo is None or hi is None or hi - lo + (1 if r[3] else 0) > 16:
+                raise
+            if any(st[0] == "assign" and self.place_root(st[1]) == var[1] for st in body[0]):
+                raise
+            for k in range(lo, hi + (1 if r[3] else 0)):
+                saved = self.scope
+                self.scope = Scope(saved)
+                try:
+                    v = Var(var[1], "nat", str(k), const=True)
+                    v.lit = k
+                    self.scope.declare(var[1], v)
+                    self.stmts(body[0])
+                    self.end_scope()
+                finally:
+                    self.scope = saved
+
+    def for_stmt_(self, s):
         _, var, it, body = s
         self.preflush(s)
         # iterable
